@@ -378,15 +378,21 @@ func (n *Node) ExecBlocksPipelined(evs ...*pb.CommitEvent) error {
 	}
 	timer := time.NewTimer(ExecTimeout)
 	defer timer.Stop()
-	got := 0
-	for got < len(evs) {
+	// executed events are posted from goroutines of their own and may overtake each other
+	want := map[uint64]bool{}
+	for _, ev := range evs {
+		want[ev.Block.BlockHeader.Number] = true
+	}
+	for len(want) > 0 {
 		select {
 		case e := <-n.evCh:
-			if e.Block.BlockHeader.Number == evs[got].Block.BlockHeader.Number {
-				got++
-			}
+			delete(want, e.Block.BlockHeader.Number)
 		case <-timer.C:
-			return fmt.Errorf("no executed event for height %d within %v", evs[got].Block.BlockHeader.Number, ExecTimeout)
+			var missing []uint64
+			for h := range want {
+				missing = append(missing, h)
+			}
+			return fmt.Errorf("no executed event for heights %v within %v", missing, ExecTimeout)
 		}
 	}
 	return nil
